@@ -1,0 +1,7 @@
+//go:build !verif
+
+package storage
+
+// verifStep is a verification hook point; it does nothing unless the package
+// is built with the "verif" build tag.
+func verifStep(op, path string) {}
